@@ -1324,6 +1324,14 @@ func (d *DotGit) RemoveRef(name plumbing.ReferenceName) error {
 		return err
 	}
 
+	// The packed line goes first, like git does it: a loose file shadows
+	// the packed value, so removing the loose file while packed-refs still
+	// carries an older value would bring that stale value back to life if
+	// the process stops in between.
+	if err := d.rewritePackedRefsWithoutRef(name); err != nil {
+		return err
+	}
+
 	path := d.fs.Join(".", name.String())
 	_, err := d.fs.Stat(path)
 	if err == nil {
@@ -1331,14 +1339,13 @@ func (d *DotGit) RemoveRef(name plumbing.ReferenceName) error {
 		if err == nil {
 			d.removeEmptyRefDirs(name)
 		}
-		// Drop down to remove it from the packed refs file, too.
 	}
 
 	if err != nil && !os.IsNotExist(err) {
 		return err
 	}
 
-	return d.rewritePackedRefsWithoutRef(name)
+	return nil
 }
 
 // removeEmptyRefDirs removes the directories left empty by deleting the
